@@ -9,8 +9,7 @@
    are ClenModel's with a linear-time reverse (proved equal).
    ClenModel's entry_parse / fields_loop / entries_loop / post_process know only three header ids and
    drop the field name; they are COPIED here and generalised to (id, name, value) entries with the
-   full registered-header table.  HdrparseProofs.project_* proves that the copy projects onto the
-   ClenModel original.
+   full registered-header table (the check_field calls, cl_init and int64 printing are ClenModel's).
    Second half: the REFERENCE reading of a header block (RFC 9112 section 5 field-line / obs-fold
    grammar plus Squid's documented tolerances), written as a pipeline lines -> groups -> fields.
    Executable definitions only. *)
